@@ -936,7 +936,7 @@ var execRows = func() []map[string]interface{} {
 // c11ExecDirect runs the statement on the fixed rows through EmitSync and returns a canonical text
 // (JSON with sorted keys per row; `-` for a filtered row).
 func c11ExecDirect(sql string) string {
-	s := streamsql.New(streamsql.WithDiscardLog())
+	s := streamsql.New(presetOpt(), streamsql.WithDiscardLog())
 	defer s.Stop()
 	if err := s.Execute(sql); err != nil {
 		return "execute-error: " + err.Error()
